@@ -1,4 +1,5 @@
 \* C04: model checking of the round trip on every document of the universe
+\* measured: quick universe: 2 379 documents (wide: <= 2 modules from 22 variants, <= 1 net; deep: 3 centre carriers from 5, <= 1 net of arity 2..3); 11 897 states; largest intermediate value < 2^31 by CMAX = 64, RES = 128 (see Fpef.tla, Derive)
 SPECIFICATION Spec
 CONSTANTS
   UNIVERSE = "quick"
